@@ -978,7 +978,7 @@ pub fn check_main(cc: &CheckCfg) -> i32 {
             "reported": reported,
             "real_vs_stub": {
                 "real": ["rubato resamplers, kernels, windows, sinc tables (from /repo working tree)", "rustfft / realfft", "std allocator behind the counting wrapper"],
-                "stub_or_seam": ["global allocator wrapper (counts, never fails)", "CPU feature answers (hook H1) when cpu_mask != 0", "SincInterpolator = harness linear probe in position mode (kernel: Probe)", "SincInterpolator = harness cross-check wrapper around the real kernels (kernel: Cross)"]
+                "stub_or_seam": ["global allocator wrapper (counts, never fails)", "CPU feature answers (hook H1) when cpu_mask != 0", "SincInterpolator = harness linear probe in position mode (kernel: Probe)", "SincInterpolator = harness cross-check wrapper around the real kernels (kernel: Cross)", "SincInterpolator = harness odd-length user interpolator (kernel: Custom)", "harness Resampler implementor exercising the trait's provided methods and the VecResampler wrapper (C16)", "user buffer type whose accessor unwinds, used on a throw-away real resampler (fault F13)", "caller threads with 128-256 KiB stacks and calls issued while the thread unwinds (C18)"]
             }
         },
         "assumptions": [
